@@ -11,11 +11,16 @@ mod error;
 #[cfg(feature = "async")]
 mod future;
 mod signal;
+#[cfg(kanal_verif)]
+#[doc(hidden)]
+pub mod verif;
 
 pub use error::*;
 #[cfg(feature = "async")]
 pub use future::*;
 
+#[cfg(kanal_verif)]
+use crate::verif::{core, std};
 #[cfg(feature = "async")]
 use core::mem::transmute;
 use core::{
